@@ -47,6 +47,7 @@ public:                      // was private - needed for derived class SBMLtoXML
     xmlTextWriterPtr writer; /**< The underlying xmlTextWriter */
     Document* doc;           /**< The document to write */
     std::map<int, int> selfLoops;
+    int branchpointBase{0}; /**< Identifier number of the first branchpoint of the current template */
 
     void startDocument();
     void endDocument();
@@ -59,6 +60,7 @@ public:                      // was private - needed for derived class SBMLtoXML
 
     void taTempl(const template_t& templ);
     void location(const location_t& loc);
+    void branchpoint(const branchpoint_t& bp);
     void init(const template_t& templ);
     void name(const location_t& state, int x, int y);
     void writeStateAttributes(const location_t& state, int x, int y);
